@@ -323,6 +323,54 @@ static void sc_write_once(bool once, unsigned seed, int P, int rounds) {
     }
 }
 
+// overwrite_node / write_once_node: a successor is being ATTACHED (make_edge -> register_successor hands it the held value) while another thread
+// writes.  The new successor is a lightweight function_node (its body runs inside the try_put that register_successor makes) whose first call
+// lingers (bounded) until the writer is about to call try_put: "always deliver the latest / first value to every present and FUTURE successor" --
+//   overwrite_node : the last value the new successor received is the value the node holds at the end;
+//   write_once_node: the new successor received exactly the first value.
+static void sc_register_race(bool once, unsigned seed, int rounds) {
+    for (int r = 0; r < rounds && g_viol.empty(); ++r) {
+        graph g;
+        std::unique_ptr<overwrite_node<WMsg>> node(once ? (overwrite_node<WMsg>*)new write_once_node<WMsg>(g) : new overwrite_node<WMsg>(g));
+        g_wo_first = 1;                                   // (WMsg's assignment does not linger in this scenario)
+        node->try_put(WMsg(1));
+        g.wait_for_all();
+        std::atomic<int> in_body{0}, writer_entered{0};
+        std::mutex mu; std::vector<int> got;
+        function_node<WMsg, int, lightweight> lw(g, serial, [&](const WMsg& m) noexcept {
+            { std::lock_guard<std::mutex> l(mu); got.push_back(m.v); }
+            if (in_body.exchange(1) == 0) {
+                auto t0 = std::chrono::steady_clock::now();
+                while (!writer_entered.load() && std::chrono::steady_clock::now() - t0 < std::chrono::milliseconds(80)) std::this_thread::yield();
+                std::this_thread::sleep_for(std::chrono::milliseconds(4 + (seed + r) % 5));
+            }
+            return 0;
+        });
+        bool acc = false;
+        std::thread a([&] { make_edge(*node, lw); });
+        std::thread b([&] {
+            auto t0 = std::chrono::steady_clock::now();
+            while (!in_body.load() && std::chrono::steady_clock::now() - t0 < std::chrono::milliseconds(200)) std::this_thread::yield();
+            writer_entered = 1;
+            acc = node->try_put(WMsg(2));
+        });
+        a.join(); b.join();
+        g.wait_for_all();
+        WMsg cur; bool has = node->try_get(cur);
+        std::lock_guard<std::mutex> l(mu);
+        std::string name = once ? "write_once_node" : "overwrite_node";
+        if (!has) { viol(name + " holds no value"); break; }
+        if (got.empty()) { viol(name + ": a successor attached while the node held a value received nothing"); break; }
+        if (once) {
+            if (acc || cur.v != 1) { viol("write_once_node accepted a second write (holds " + std::to_string(cur.v) + ")"); break; }
+            if (got.size() != 1 || got[0] != 1) { viol("write_once_node: a successor attached during a racing write received " + std::to_string(got.size()) + " message(s), last " + std::to_string(got.back()) + ", instead of the first value once"); break; }
+        } else {
+            if (!acc || cur.v != 2) { viol("overwrite_node did not take the racing write (holds " + std::to_string(cur.v) + ")"); break; }
+            if (got.back() != cur.v) { viol("overwrite_node holds " + std::to_string(cur.v) + " but the successor attached during the write last received " + std::to_string(got.back()) + ": it never gets the latest value"); break; }
+        }
+    }
+}
+
 int main(int argc, char** argv) {
     if (argc < 5) { fprintf(stderr, "usage: mt <scenario> <seed> <threads> <n> [threshold]\n"); return 2; }
     std::string sc = argv[1]; unsigned seed = (unsigned)atoi(argv[2]); int P = atoi(argv[3]), N = atoi(argv[4]);
@@ -339,6 +387,8 @@ int main(int argc, char** argv) {
     else if (sc == "jk") sc_jk(seed, P, N);
     else if (sc == "wonce") sc_write_once(true, seed, P, N);
     else if (sc == "owrite") sc_write_once(false, seed, P, N);
+    else if (sc == "oreg") sc_register_race(false, seed, N);
+    else if (sc == "wreg") sc_register_race(true, seed, N);
     else { fprintf(stderr, "unknown scenario\n"); return 2; }
     if (g_viol.empty()) printf("ok scenario=%s seed=%u threads=%d n=%d\n", sc.c_str(), seed, P, N);
     else printf("VIOLATION %s\n", g_viol.c_str());
